@@ -31,6 +31,8 @@ type backup struct {
 	db         *DB // the source database (its config is reused for fresh instances)
 	delta      bool
 	deltaItems int
+	// delta items that the last successful tryLoad inserted (items that only the delta shards held)
+	lastDeltaRestored int
 }
 
 func classify(rel string) string {
@@ -257,6 +259,7 @@ func (b *backup) tryLoad(concurr int) (outcome string, detail string) {
 	case res.err != nil:
 		return "error", res.err.Error()
 	}
+	b.lastDeltaRestored = int(fresh.N.DeltaRestored)
 	got, ok := Scan(res.snap, 0)
 	if !ok {
 		return "wrong", "returned snapshot cannot be iterated"
